@@ -430,4 +430,72 @@ def emitBatch (cfg : Cfg) (s : State) (t : Tid) : List (Rec × Option Bool × Bo
       | none => emitBatch cfg s1 t rest
       | some counted => step cfg s1 (.pAbandon t (rest.map (·.1)) counted)
 
+/-! ### under which tid a thread announces its buffers, and whose buffers it fills
+
+libmcount/internal.h mcount_gettid (`mtdp->tid` is a cache, 0 = empty); libmcount/plthook.c prepare_vfork /
+setup_vfork / restore_vfork and the tests around them in __plthook_exit; libmcount/mcount.c atfork_child_handler,
+mcount_prepare.  REC_START / REC_END name a buffer `/uftrace-<sid>-<mcount_gettid()>-<idx>`, and the recorder appends
+it to `<that tid>.dat`: the `t` of `Msg.recStart t i` above IS the thread only as long as the cache holds the thread's
+own kernel tid and `mtdp->shmem` holds the buffers the thread itself started.  This is the machine that keeps them. -/
+
+/-- the two repairs of the vfork bookkeeping (`false` = the code before them) -/
+structure VforkFix where
+  again : Bool := true   -- prepare_vfork drops MCOUNT_FL_VFORK from the copy of the frame it keeps for the parent
+                         -- (F-C03-VFORK-AGAIN: the parent that finds this copy ran setup_vfork itself)
+  mt : Bool := true      -- __plthook_exit calls restore_vfork only in the thread that called vfork
+                         -- (F-C03-VFORK-MT: `if (vfork_parent)` alone is true in every thread of the process)
+
+/-- what a thread is, and what its `struct mcount_thread_data` says -/
+structure Ident where
+  pid : Nat                                  -- getpid() of the process it runs in
+  ktid : Nat                                 -- its kernel tid: what its messages and its data file must be named by
+  cache : Nat := 0                           -- mtdp->tid
+  bufs : Nat                                 -- kernel tid under which the buffers in mtdp->shmem were started
+  saved : Option (Nat × Nat × Nat) := none   -- a vfork in flight: the parent's pid, kernel tid and buffers
+                                             -- (vfork_parent, vfork_shmem; the thread runs as the child meanwhile)
+  deriving DecidableEq, Repr
+
+inductive IdOp where
+  | gettid                     -- mcount_gettid(): any message naming the thread, any buffer name
+  | vfork (child : Nat)        -- vfork() returns in the child: same stack, same mtdp, another process
+  | vforkDone (stale : Bool)   -- the child has called _exit / exec, the parent returns from vfork(); `stale`: the frame
+                               -- it finds is the restored copy of the vfork frame (rstack depth 0 and the child pushed
+                               -- no frame: its _exit/exec PLT entry was already resolved)
+  | fork (child : Nat)         -- fork(): this is the child after atfork_child_handler
+  | exec                       -- a new image under the same kernel tid (mcount_prepare)
+  | otherVfork (a : Nat)       -- another thread (kernel tid `a`) is inside vfork(), this one returns from a library call
+  deriving DecidableEq, Repr
+
+/-- the tid the next message / buffer name carries -/
+def Ident.msgTid (s : Ident) : Nat := if s.cache = 0 then s.ktid else s.cache
+
+def idStep (fx : VforkFix) (s : Ident) : IdOp → Ident
+  | .gettid => { s with cache := s.msgTid }
+  | .vfork c =>
+    -- prepare_vfork (parent side kept), then setup_vfork in the child: tid cache = getpid(), fresh buffers under it
+    { pid := c, ktid := c, cache := c, bufs := c, saved := some (s.pid, s.ktid, s.bufs) }
+  | .vforkDone stale =>
+    match s.saved with
+    | none => s
+    | some (p, k, b) =>
+      if stale && !fx.again then
+        -- MCOUNT_FL_VFORK still set on the restored frame: setup_vfork in the PARENT (tid cache = getpid(), new
+        -- buffers started under that name, the old ones forgotten)
+        { pid := p, ktid := k, cache := p, bufs := p, saved := none }
+      else
+        -- restore_vfork: "flush tid cache", mtdp->shmem = vfork_shmem
+        { pid := p, ktid := k, cache := 0, bufs := b, saved := none }
+  | .fork c => { pid := c, ktid := c, cache := c, bufs := c, saved := none }
+  | .exec => { s with cache := 0, bufs := s.ktid, saved := none }
+  | .otherVfork a =>
+    -- restore_vfork on THIS thread's mtdp: rstack index, record depth and shmem of the vforking thread
+    if fx.mt then s else { s with cache := 0, bufs := a }
+
+def idRun (fx : VforkFix) : Ident → List IdOp → Ident
+  | s, [] => s
+  | s, o :: os => idRun fx (idStep fx s o) os
+
+/-- the thread's messages carry its own tid and it fills its own buffers -/
+def Ident.own (s : Ident) : Bool := s.msgTid == s.ktid && s.bufs == s.ktid
+
 end Uft.Shmem
